@@ -517,6 +517,37 @@ pub fn exec_replicas(ctx: &mut Ctx, s: &Scenario) -> Outcome {
                     if !pf.isa.contains(&(118, 1)) {
                         ctx.counters.add("probe.pheno_root_not_a_child_of_root", 1);
                     }
+                    // a history on one ontology value: both groups are overwritten through the public `*_mut()` accessors, then
+                    // the default setters are called again (in either order) — the same classification as after building
+                    if r.chance(1, 6) {
+                        let mut o2: Ontology = (**o).clone();
+                        let ids: Vec<u32> = pf.terms.iter().map(|t| t.id).collect();
+                        let mut junk = |r: &mut Prng| -> Vec<u32> {
+                            let mut v: Vec<u32> = (0..r.urange(0, 3)).map(|_| *r.pick(&ids)).collect();
+                            v.sort_unstable();
+                            v.dedup();
+                            v
+                        };
+                        *o2.modifier_mut() = hpo::term::HpoGroup::from(junk(&mut r));
+                        *o2.categories_mut() = hpo::term::HpoGroup::from(junk(&mut r));
+                        let modifier_first = r.chance(1, 2);
+                        let res = crate::obs::guarded(|| {
+                            if modifier_first {
+                                o2.set_default_modifier().and_then(|()| o2.set_default_categories())
+                            } else {
+                                o2.set_default_categories().and_then(|()| o2.set_default_modifier())
+                            }
+                        });
+                        ctx.counters.add("probe.default_setters_called_again", 1);
+                        match res {
+                            Ok(Ok(())) => {
+                                let got2 = observe(&o2);
+                                report_diffs(&mut out, prop, &format!("{what}|after *_mut() and the default setters again|vs-model"), &expected, &got2, IcCmp::Ulp);
+                            }
+                            Ok(Err(e)) => out.violate(prop, "default-setters-refused", format!("{what}: set_default_* on the finished ontology returned {e:?}")),
+                            Err(p) => out.violate(prop, "default-setters-panic", format!("{what}: set_default_* on the finished ontology panicked: {p}")),
+                        }
+                    }
                 }
                 if prop == "C10" {
                     crate::props::c10::check_lookups(ctx, &mut out, &what, o, &pf, &mut r, s.mode == "full-sweep" && i == 0);
